@@ -13,7 +13,7 @@ def q(xs):
     return S('"%s"' % x for x in xs)
 
 
-ALL_LENS = [1, 2, 31, 32, 33, 63, 64, 65, 95, 96, 97, 127, 128, 129, 255, 256, 257]
+ALL_LENS = [1, 2, 31, 32, 33, 63, 64, 65, 95, 96, 97, 127, 128, 129, 160, 161, 192, 193, 224, 225, 255, 256, 257, 321, 352]
 ALL_LAYS = ["u32", "c32", "u23", "c23", "asn1"]
 
 
@@ -45,6 +45,8 @@ def run(ctx):
             # round trip over the lengths (every KDF block-count class), every layout, helper chains of length 1
             shard("lenA", ["r1"], lens[0::2], ["r1"], both, chain=1),
             shard("lenB", ["one"], lens[1::2], ["r1"], both, chain=1),
+            # the block counts 5..8 and 11 of the KDF (every remainder of the 4- and 8-lane batches), two layouts
+            shard("lenK", ["r2"], [160, 192, 193, 224, 256, 321], ["r1"], ["rand"], lays=["c23", "asn1"]),
             # structured scalars (1, n-1, [k]G with a short coordinate) and the largest key
             shard("edge", ["nm2"], [1, 33], ["one", "nm1", "shortx", "shorty"], both),
             # everything that must be refused + the scalar with an all-zero mask (A5/B4)
